@@ -464,3 +464,40 @@ def template_char(spans, col):
 
 def _norm(s):
     return ''.join(s.split())
+
+
+# ------------------------------------------------------------------ read_gro: the columns of the fields
+SliceT = TTuple(TInt, TInt, names=['start', 'stop'])
+RECS_GRO = [('AW', [('w', TSeq(TInt)), ('i', TInt)], TInt, "0 if i <= 0 else AW(w, i - 1) + (w[i - 1] if w[i - 1] >= 0 else -w[i - 1])")]
+
+
+def setup_gro_cols(cx):
+    widths = cx.val('field_widths', TSeq(TInt))
+    cx.spec_env['WIDTHS'] = widths
+    cx.spec_env['slice'] = Builtin(lambda e, a, b: (a, b) if True else None, 'slice')
+    return dict(field_widths=widths)
+
+
+GRO_INV = [
+    "start == AW(WIDTHS, {I})",
+    "len(g_src) == len(slices)",
+    # the q-th column comes from a field of positive width: it starts where the widths of all earlier fields (skipped ones counted
+    # by their absolute value) end, and is as wide as that field
+    "forall(lambda q: implies(0 <= q and q < len(slices), 0 <= g_src[q] and g_src[q] < {I} and WIDTHS[g_src[q]] > 0 and "
+    "   slices[q].start == AW(WIDTHS, g_src[q]) and slices[q].stop == slices[q].start + WIDTHS[g_src[q]]))",
+    "forall(lambda p, q: implies(0 <= p and p < q and q < len(g_src), g_src[p] < g_src[q]))",
+    "forall(lambda i: implies(0 <= i and i < {I} and WIDTHS[i] > 0, i in g_pos and 0 <= g_pos[i] and g_pos[i] < len(g_src) and g_src[g_pos[i]] == i))",
+]
+gro_columns = FunctionContract(
+    'vermouth/gmx/gro.py', 'read_gro', 'C16', short='read_gro[columns]', spec_recs=RECS_GRO, setup=setup_gro_cols,
+    region=dict(within=["with open(str(file_name)) as gro:"], start="start = 0", end="for line_idx, line in enumerate(chain([first_line], gro)):"),
+    locals=dict(slices=TSeq(SliceT), g_src=TSeq(TInt), g_pos=TMap(TInt, TInt), start=TInt), ghost_at={'entry': "g_src = []\ng_pos = {}"},
+    ensures=[x.format(I='len(WIDTHS)') for x in GRO_INV],
+    loops={'L1': LoopSpec(inv=[x.format(I='_i') for x in GRO_INV], modifies=['slices', 'g_src', 'g_pos'],
+                          locals=dict(g_n0=TInt, start=TInt), ghost_pre="g_n0 = len(slices)",
+                          ghost_end="if len(slices) > g_n0:\n    g_src.append(_i)\n    g_pos[_i] = len(g_src) - 1")},
+    canary=[("start = start + abs(width)", "start = start + width"),
+            ("slices.append(slice(start, start + width))", "slices.append(slice(start, start + width + 1))"),
+            ("if width > 0:", "if width >= 0:")],
+)
+CONTRACTS.append(gro_columns)
